@@ -137,13 +137,13 @@ EDGE_SPACES = ('\u00a0', '\u3000', '\u2028', '\u2029', '\u0085', '\u000b', '\u00
 
 def _invalid_text(sim, base):
     k = sim.weighted('invkind', [(3, 'syntax'), (2, 'type'), (2, 'sanity'), (1.5, 'unknownfun'), (1.5, 'dupmeta'),
-                                 (1, 'empty'), (1, 'unicode'), (2.5, 'later_invalid'), (2, 'edge_space')])
+                                 (1, 'empty'), (1, 'unicode'), (2.5, 'later_invalid'), (4, 'edge_space')])
     if k == 'edge_space':
         # a valid text plus ONE character that looks like white space and is none to the grammar
         # (pasted from a web page or a PDF, typed with a CJK input method), at the end, the start or
         # between two tokens; whether it parses is the library parser's call, not assumed here
         ch = sim.pick('spacech', EDGE_SPACES)
-        where = sim.weighted('spacewhere', [(6, 'end'), (2, 'end_nl'), (1.5, 'start'), (1.5, 'inside')])
+        where = sim.weighted('spacewhere', [(6, 'end'), (3, 'end_nl'), (1, 'start'), (1, 'inside')])
         if where == 'end':
             return base + ch, k
         if where == 'end_nl':
